@@ -457,6 +457,8 @@ qb_log_target_format(int32_t target,
 		output_buffer[output_buffer_idx-3] = '.';
 		output_buffer[output_buffer_idx-2] = '.';
 		output_buffer[output_buffer_idx-1] = '.';
+		/* a stripped newline had its terminator there */
+		output_buffer[output_buffer_idx] = '\0';
 	}
 }
 
